@@ -103,6 +103,10 @@ def scale(kind, k):
         return [tuple(i <= j for j in range(k)) for i in range(k)]
     if kind == 'ordinal-rev':   # chain, rows growing: row i has the first i+1 properties
         return [tuple(j <= i for j in range(k)) for i in range(k)]
+    if kind in ('paley', 'paley0'):   # circulant of the quadratic residues mod k (k prime):
+        # irregular non-boolean lattices with several hundred concepts and wide covers
+        res = {(x * x) % k for x in range(1, k)} | ({0} if kind == 'paley0' else set())
+        return circulant(k, sum(1 << i for i in res))
     if kind == 'blocks':        # k objects in two equal blocks, one property each, one shared
         h = k // 2
         return [(i < h, i >= h, i % 3 == 0) for i in range(k)]
@@ -366,11 +370,13 @@ def big_shards(tier):
     """Big lattices / wide extents as whole tables (one shard each)."""
     sh = [('W', 'nominal', 9), ('W', 'nominal', 31), ('W', 'ordinal', 40), ('W', 'ordinal-rev', 40),
           ('W', 'nominal', 65), ('W', 'ordinal-rev', 65), ('W', 'blocks', 600),
-          ('W', 'contranominal+full', 9), ('W', 'chainproduct', 12)]
+          ('W', 'contranominal+full', 9), ('W', 'chainproduct', 12),
+          ('W', 'paley0', 13), ('W', 'paley', 17), ('W', 'paley0', 17), ('W', 'paley', 19),
+          ('W', 'contranominal', 11)]
     if tier == 'thorough':
         sh += [('W', 'nominal', 130), ('W', 'ordinal', 130), ('W', 'ordinal-rev', 130),
-               ('W', 'contranominal', 10), ('W', 'contranominal', 11), ('W', 'chainproduct', 19),
-               ('W', 'chainproduct', 30), ('W', 'contranominal+full', 10)]
+               ('W', 'contranominal', 10), ('W', 'contranominal', 12), ('W', 'chainproduct', 19),
+               ('W', 'chainproduct', 30), ('W', 'contranominal+full', 10), ('W', 'paley0', 19)]
     return sh
 
 
